@@ -334,6 +334,10 @@ func (c *Ctx) configTypes() []*types.Named {
 			continue
 		}
 		if types.Implements(types.NewPointer(named), it) {
+			// parser types embed their config and inherit its methods: exclude them
+			if pi := c.namedType(c.lz, "Parser"); pi != nil && types.Implements(types.NewPointer(named), pi.Underlying().(*types.Interface)) {
+				continue
+			}
 			out = append(out, named)
 		}
 	}
